@@ -276,6 +276,12 @@ func (app *Application) submitEvidence(
 	if b {
 		return roothash.ErrDuplicateEvidence
 	}
+
+	// Create a new transaction context and rollback in case we fail.
+	ctx = ctx.NewTransaction()
+	defer ctx.Close()
+	state = roothashState.NewMutableState(ctx.State())
+
 	if err = state.SetEvidenceHash(ctx, rtState.Runtime.ID, round, evHash); err != nil {
 		return err
 	}
@@ -288,6 +294,8 @@ func (app *Application) submitEvidence(
 	); err != nil {
 		return fmt.Errorf("error slashing runtime node: %w", err)
 	}
+
+	ctx.Commit()
 
 	return nil
 }
